@@ -133,6 +133,10 @@ func c04Key(k c04Case, what string) string {
 }
 
 func c04Run(c *core.Ctx, k c04Case) {
+	if strings.HasPrefix(k.Special, "tcp-") {
+		c04RunAlign(c, k) // c04_align.go: receivers aligned to a payload nonce / the reverse direction / another connection
+		return
+	}
 	if k.Special != "" {
 		c04RunSpecial(c, k)
 		return
@@ -193,6 +197,7 @@ func c04Run(c *core.Ctx, k c04Case) {
 		c04CompareUDP(c, k, o)
 	} else {
 		c04CompareTCP(c, k, o)
+		c04CompareTCPK(c, k, o) // c04_align.go: the same stream against the key-history model (c04-tcpk, c04-feedeq, c04-leopen)
 	}
 }
 
@@ -681,6 +686,7 @@ func init() {
 			c.Correspondence("mutated unit replayed through the model receiver (StreamWire.drain / PacketWire.parse) with the ideal AEAD keyed by the honest triples seen on the wire; TCP: delivered byte count, UDP: accept/reject (acknowledged before any genuine copy arrived)")
 			var cases []c04Case
 			cases = append(cases, c04LoadCorpus(c)...)
+			cases = append(cases, c04AlignCases(c.Rand, c.Thorough() || c.Search)...) // c04_align.go: deterministic, every run
 			cases = append(cases, genC04(c.Rand, c.Thorough() || c.Search)...) // a broken obligation widens the search
 			for i := 0; i < 3 && i < len(cases); i++ {
 				c.Sample(cases[i])
